@@ -70,8 +70,26 @@ Theorem C05_reject_wrong_as : forall (D : decoders) c msg asn phold caps w, Good
 Proof. exact open_rejected_peer_as. Qed.
 Print Assumptions C05_reject_wrong_as.
 
-(** hold time: min(own, proposed) of 1 or 2 is refused with (2,6) *)
+(** hold time: a PROPOSED hold time of 1 or 2 is refused with (2,6), whatever the own value is
+    (since fix of negotiate_hold_time; before, the test was applied to min(own, proposed) only and
+    an own hold time of 0 let 1 and 2 through) *)
 Theorem C05_reject_hold_1_2 : forall (D : decoders) c msg asn phold caps w, Good c w -> w_state w = StOpenSent ->
+  c_closing (get_conn c w) = false -> w_out w = [] ->
+  d_open D msg = OpOk asn phold caps -> asn = cf_remote_as (w_cfg w) ->
+  (phold = 1 \/ phold = 2) ->
+  let w' := snd (open_received D c msg w) in
+  w_state w' = StIdle /\
+  notif_of (rev (w_out w')) = [(c_ERR_MSG_OPEN, c_ERR_MSG_OPEN_UNACCPT_HOLD_TIME)] /\
+  kinds_of (rev (w_out w')) = [3; 0].
+Proof.
+  intros D c msg asn phold caps w Hg Hs Hcl Ho Hd Heq Hp.
+  apply (open_rejected_hold D c msg asn phold caps w Hg Hs Hcl Ho Hd Heq).
+  apply hold_refused_true_proposed; lia.
+Qed.
+Print Assumptions C05_reject_hold_1_2.
+
+(** ... and so is a negotiated value of 1 or 2 (only possible when 1 or 2 is configured locally) *)
+Theorem C05_reject_negotiated_1_2 : forall (D : decoders) c msg asn phold caps w, Good c w -> w_state w = StOpenSent ->
   c_closing (get_conn c w) = false -> w_out w = [] ->
   d_open D msg = OpOk asn phold caps -> asn = cf_remote_as (w_cfg w) ->
   N.min (w_hold w) phold <> 0 -> N.min (w_hold w) phold < 3 ->
@@ -79,21 +97,29 @@ Theorem C05_reject_hold_1_2 : forall (D : decoders) c msg asn phold caps w, Good
   w_state w' = StIdle /\
   notif_of (rev (w_out w')) = [(c_ERR_MSG_OPEN, c_ERR_MSG_OPEN_UNACCPT_HOLD_TIME)] /\
   kinds_of (rev (w_out w')) = [3; 0].
-Proof. exact open_rejected_hold. Qed.
-Print Assumptions C05_reject_hold_1_2.
+Proof.
+  intros D c msg asn phold caps w Hg Hs Hcl Ho Hd Heq H1 H2.
+  apply (open_rejected_hold D c msg asn phold caps w Hg Hs Hcl Ho Hd Heq).
+  apply hold_refused_true_negotiated; assumption.
+Qed.
+Print Assumptions C05_reject_negotiated_1_2.
 
 (** otherwise accepted: KEEPALIVE, OpenConfirm, session hold = min(own, proposed); later UPDATEs
     on this connection are read with 4-octet AS numbers iff the PEER advertised the capability *)
 Theorem C05_accept : forall (D : decoders) c msg asn phold caps w, Good c w -> w_state w = StOpenSent ->
   c_closing (get_conn c w) = false -> w_out w = [] ->
   d_open D msg = OpOk asn phold caps -> asn = cf_remote_as (w_cfg w) ->
-  (N.min (w_hold w) phold = 0 \/ 3 <= N.min (w_hold w) phold) ->
+  (phold = 0 \/ 3 <= phold) -> (N.min (w_hold w) phold = 0 \/ 3 <= N.min (w_hold w) phold) ->
   let w' := snd (open_received D c msg w) in
   w_state w' = StOpenConfirm /\ kinds_of (rev (w_out w')) = [4] /\
   w_hold w' = N.min (w_hold w) phold /\
   c_asn4 (get_conn c w') = (cap_has KFourBytesAs caps || c_asn4 (get_conn c w)) /\
   w_capr w' = caps.
-Proof. exact open_accepted. Qed.
+Proof.
+  intros D c msg asn phold caps w Hg Hs Hcl Ho Hd Heq Hp Hm.
+  apply (open_accepted D c msg asn phold caps w Hg Hs Hcl Ho Hd Heq).
+  apply hold_refused_false; assumption.
+Qed.
 Print Assumptions C05_accept.
 
 (** the last clause of the property asks for "exactly when BOTH sides advertised": the code looks
